@@ -4,15 +4,15 @@ From Coq Require Import Lia.
 Local Open Scope N_scope.
 
 Section Proofs.
-  Context {name : Type} (neqb : name -> name -> bool).
+  Context {name pid : Type} (neqb : name -> name -> bool).
   Hypothesis neqb_spec : forall x y, neqb x y = true <-> x = y.
-  Variable gm : bool -> N -> list name -> bool.
+  Variable gm : bool -> pid -> list name -> bool.
 
   Notation path := (list name).
   Notation visit := (@visit name).
   Notation vset := (@vset name).
   Notation tree := (@tree name).
-  Notation matcher := (@matcher name).
+  Notation matcher := (@matcher name pid).
   Notation visit_allows := (visit_allows neqb).
   Notation mem_name := (mem_name neqb).
   Notation vset_mem := (vset_mem neqb).
@@ -126,13 +126,13 @@ Section Proofs.
       closed under extension of the path (they end in [(?:/|$)]). *)
   Notation gm_prefix_closed := (gm_prefix_closed gm).
 
-  Definition node_match (pm : bool) (t : tree (option (list N))) (tail : path) : bool :=
+  Definition node_match (pm : bool) (t : tree (option (list pid))) (tail : path) : bool :=
     match value t with Some pats => is_match gm pm pats tail | None => false end.
 
-  Lemma globs_matches_nil pm (t : tree (option (list N))) : globs_matches neqb gm pm t [] = false.
+  Lemma globs_matches_nil pm (t : tree (option (list pid))) : globs_matches neqb gm pm t [] = false.
   Proof. reflexivity. Qed.
 
-  Lemma globs_matches_cons pm (t : tree (option (list N))) c p :
+  Lemma globs_matches_cons pm (t : tree (option (list pid))) c p :
     globs_matches neqb gm pm t (c :: p) =
     node_match pm t (c :: p)
     || match assoc c (children t) with Some s => globs_matches neqb gm pm s p | None => false end.
@@ -144,16 +144,16 @@ Section Proofs.
   Lemma is_match_closed pats t q :
     gm_prefix_closed -> is_match gm true pats t = true -> is_match gm true pats (t ++ q) = true.
   Proof.
-    intros Hc. unfold is_match. rewrite !existsb_exists. intros (pid & Hin & H). eauto.
+    intros Hc. unfold is_match. rewrite !existsb_exists. intros (pid0 & Hin & H). eauto.
   Qed.
 
-  Lemma globs_matches_node pm (t : tree (option (list N))) p :
+  Lemma globs_matches_node pm (t : tree (option (list pid))) p :
     p <> [] -> node_match pm t p = true -> globs_matches neqb gm pm t p = true.
   Proof.
     destruct p as [|c p]; [congruence|]. intros _ H. rewrite globs_matches_cons, H. reflexivity.
   Qed.
 
-  Lemma globs_loop_some pm (t : tree (option (list N))) d q :
+  Lemma globs_loop_some pm (t : tree (option (list pid))) d q :
     (pm = true -> gm_prefix_closed) -> q <> [] ->
     let v := globs_visit_loop gm pm SOME (walk t d) in
     v = SOME \/ (v = AllRecursively /\ globs_matches neqb gm pm t (d ++ q) = true).
@@ -182,7 +182,7 @@ Section Proofs.
         rewrite H2. apply orb_true_r.
   Qed.
 
-  Lemma globs_sound pm (t : tree (option (list N))) d q :
+  Lemma globs_sound pm (t : tree (option (list pid))) d q :
     (pm = true -> gm_prefix_closed) -> q <> [] ->
     visit_allows (globs_visit neqb gm pm t d) q (globs_matches neqb gm pm t (d ++ q)) = true.
   Proof.
